@@ -59,7 +59,7 @@ func nodeCalls(info *types.Info, refs ...string) func(ast.Node) bool {
 	return func(n ast.Node) bool {
 		found := false
 		ownCalls(n, func(call *ast.CallExpr, _ bool) {
-			if rs.Matches(core.Callee(info, call)) {
+			if rs.MatchesObj(core.CalleeObj(info, call)) {
 				found = true
 			}
 		})
